@@ -33,18 +33,38 @@ type Stats struct {
 	SampleOutcomes []string `json:"sample_outcomes,omitempty"`
 }
 
+// item is a schedule prefix still to be run: the first n choices of base (the
+// complete choice list of the execution it was derived from, shared between
+// all of that execution's children) followed by alt.
 type item struct {
-	prefix []uint8
-	cost   int
+	base []uint8
+	n    int
+	alt  int // -1: the prefix is base[:n] itself
+	cost int
 }
 
-func toInts(b []uint8, extra int) []int {
-	out := make([]int, len(b), len(b)+1)
-	for i, x := range b {
-		out[i] = int(x)
+func (it item) prefixLen() int {
+	if it.alt < 0 {
+		return it.n
 	}
-	if extra >= 0 {
-		out = append(out, extra)
+	return it.n + 1
+}
+
+func (it item) prefix() []int {
+	out := make([]int, it.n, it.n+1)
+	for i := 0; i < it.n; i++ {
+		out[i] = int(it.base[i])
+	}
+	if it.alt >= 0 {
+		out = append(out, it.alt)
+	}
+	return out
+}
+
+func (it item) bytes() []byte {
+	out := append([]byte(nil), it.base[:it.n]...)
+	if it.alt >= 0 {
+		out = append(out, byte(it.alt))
 	}
 	return out
 }
@@ -82,7 +102,7 @@ func Explore(opts Options, mk func() *Exec) *Stats {
 	st := &Stats{BoundCompleted: -1, outcomes: map[uint64]struct{}{}}
 	st.ExecsPerLevel = make([]int64, opts.Bound+1)
 	levels := make([][]item, opts.Bound+2)
-	levels[0] = []item{{}}
+	levels[0] = []item{{alt: -1}}
 	for lvl := 0; lvl <= opts.Bound; lvl++ {
 		stack := levels[lvl]
 		levels[lvl] = nil
@@ -107,7 +127,7 @@ func Explore(opts Options, mk func() *Exec) *Stats {
 				st.CapHit = "deadline"
 				return st
 			}
-			pre := toInts(it.prefix, -1)
+			pre := it.prefix()
 			res := runOnce(&opts, pre, mk)
 			st.Execs++
 			st.ExecsPerLevel[lvl]++
@@ -162,8 +182,10 @@ func Explore(opts Options, mk func() *Exec) *Stats {
 					st.SampleOutcomes = append(st.SampleOutcomes, oc)
 				}
 			}
-			// children
-			for i := len(res.Points) - 1; i >= len(it.prefix); i-- {
+			// children (they share this execution's choice list)
+			var base []uint8
+			plen := it.prefixLen()
+			for i := len(res.Points) - 1; i >= plen; i-- {
 				p := res.Points[i]
 				for alt := p.N - 1; alt >= 1; alt-- {
 					c := it.cost
@@ -173,22 +195,24 @@ func Explore(opts Options, mk func() *Exec) *Stats {
 					if c > opts.Bound {
 						continue
 					}
-					np := make([]uint8, i+1)
-					for j := 0; j < i; j++ {
-						np[j] = uint8(res.Points[j].Chosen)
+					if base == nil {
+						base = make([]uint8, len(res.Points))
+						for j, q := range res.Points {
+							base[j] = uint8(q.Chosen)
+						}
 					}
-					np[i] = uint8(alt)
+					child := item{base: base, n: i, alt: alt, cost: c}
 					if c == lvl {
-						stack = append(stack, item{np, c})
+						stack = append(stack, child)
 					} else {
 						if opts.Shards > 1 && lvl == 0 {
 							hh := fnv.New32a()
-							hh.Write(np)
+							hh.Write(child.bytes())
 							if int(hh.Sum32()%uint32(opts.Shards)) != opts.Shard {
 								continue
 							}
 						}
-						levels[c] = append(levels[c], item{np, c})
+						levels[c] = append(levels[c], child)
 					}
 				}
 			}
